@@ -160,12 +160,16 @@ AdjSum(a) == IF a = <<>> THEN 0 ELSE Head(a).n + AdjSum(Tail(a))
 \* _flush_recv_buf after the buffer has been handed over: EOF if pending
 AfterFlush(ch, st, bufEmpty) == IF bufEmpty /\ st = "eof_pending" THEN "eof" ELSE st
 
-DeliverFwd ==
+\* pi: the session calls pause_reading() from inside data_received()
+DeliverFwdP(pi) ==
     /\ ~err /\ fwd # <<>>
     /\ LET m == Head(fwd) ch == m.ch IN
        /\ fwd' = Tail(fwd)
-       /\ lbl' = <<"dfwd", m.t, ch>>
-       /\ UNCHANGED <<sstate, sbuf, swin, written, eofSent, npause, nrogue, sentTot, gotAdj>>
+       /\ lbl' = <<"dfwd", m.t, ch, pi>>
+       /\ pi => (m.t = "data" /\ ~paused[ch] /\ npause[ch] < MaxPause /\ rstate[ch] = "open"
+                 /\ Len(m.ids) <= rwin[ch])
+       /\ npause' = [npause EXCEPT ![ch] = IF pi THEN @ + 1 ELSE @]
+       /\ UNCHANGED <<sstate, sbuf, swin, written, eofSent, nrogue, sentTot, gotAdj>>
        /\ CASE m.t = "data" ->
                  IF rstate[ch] # "open"
                     \/ Len(m.ids) > rwin[ch] - (IF AccountBuffered THEN Buffered(ch) ELSE 0)
@@ -184,7 +188,8 @@ DeliverFwd ==
                               /\ dorder' = [dorder EXCEPT ![ch] = r[3]]
                               /\ bwd' = bwd \o r[4]
                               /\ granted' = [granted EXCEPT ![ch] = @ + AdjSum(r[4])]
-                              /\ UNCHANGED <<rstate, rbuf, paused, err>>
+                              /\ paused' = [paused EXCEPT ![ch] = pi]
+                              /\ UNCHANGED <<rstate, rbuf, err>>
             [] m.t = "eof" ->
                  IF rstate[ch] # "open"
                  THEN /\ err' = TRUE
@@ -201,6 +206,8 @@ DeliverFwd ==
                            /\ UNCHANGED <<bwd, rwin, rbuf, paused, err, delivered, granted,
                                           accTot>>
             [] OTHER -> FALSE
+
+DeliverFwd == DeliverFwdP(FALSE) \/ DeliverFwdP(TRUE)
 
 DeliverBwd ==
     /\ ~err /\ bwd # <<>>
@@ -220,11 +227,17 @@ Pause(ch) ==
     /\ UNCHANGED <<sstate, sbuf, swin, fwd, bwd, rstate, rwin, rbuf, err, written,
                    delivered, dorder, eofSent, nrogue, granted, sentTot, gotAdj, accTot>>
 
-Resume(ch) ==
+\* resume_reading(): the flush loop hands over the first k buffered chunks; with
+\* rp the session pauses again from inside the callback of the k-th chunk
+ResumeP(ch, k, rp) ==
     /\ ~err /\ paused[ch]
-    /\ paused' = [paused EXCEPT ![ch] = FALSE]
-    /\ LET r == DeliverAll(ch, rbuf[ch], rwin[ch], delivered[ch], dorder[ch], <<>>)
-           st == AfterFlush(ch, rstate[ch], TRUE) IN
+    /\ k \in 0..Len(rbuf[ch])
+    /\ (k < Len(rbuf[ch])) => rp
+    /\ rp => (k >= 1 /\ npause[ch] < MaxPause)
+    /\ paused' = [paused EXCEPT ![ch] = rp]
+    /\ npause' = [npause EXCEPT ![ch] = IF rp THEN @ + 1 ELSE @]
+    /\ LET r == DeliverAll(ch, SubSeq(rbuf[ch], 1, k), rwin[ch], delivered[ch], dorder[ch], <<>>)
+           st == AfterFlush(ch, rstate[ch], k = Len(rbuf[ch])) IN
        /\ rwin' = [rwin EXCEPT ![ch] = r[1]]
        /\ delivered' = [delivered EXCEPT ![ch] = r[2]]
        /\ dorder' = [dorder EXCEPT ![ch] =
@@ -232,10 +245,13 @@ Resume(ch) ==
        /\ bwd' = bwd \o r[4]
        /\ granted' = [granted EXCEPT ![ch] = @ + AdjSum(r[4])]
        /\ rstate' = [rstate EXCEPT ![ch] = st]
-       /\ rbuf' = [rbuf EXCEPT ![ch] = <<>>]
-    /\ lbl' = <<"resume", ch>>
-    /\ UNCHANGED <<sstate, sbuf, swin, fwd, err, written, eofSent, npause, nrogue,
+       /\ rbuf' = [rbuf EXCEPT ![ch] = SubSeq(@, k + 1, Len(@))]
+    /\ lbl' = <<"resume", ch, k, rp>>
+    /\ UNCHANGED <<sstate, sbuf, swin, fwd, err, written, eofSent, nrogue,
                    sentTot, gotAdj, accTot>>
+
+Resume(ch) == \E k \in 0..Len(rbuf[ch]), rp \in BOOLEAN : ResumeP(ch, k, rp)
+ResumeFull(ch) == ResumeP(ch, Len(rbuf[ch]), FALSE)
 
 Next ==
     \/ \E ch \in Chans, dt \in DTs, n \in 1..MaxWrite : Write(ch, dt, n)
@@ -247,7 +263,7 @@ Spec == Init /\ [][Next]_vars
 
 \* for liveness: the network delivers and a paused reader eventually resumes
 Fair == /\ WF_vars(DeliverFwd) /\ WF_vars(DeliverBwd)
-        /\ \A ch \in Chans : WF_vars(Resume(ch))
+        /\ \A ch \in Chans : WF_vars(ResumeFull(ch))
 LiveSpec == Spec /\ Fair
 
 -----------------------------------------------------------------------------
